@@ -1,0 +1,54 @@
+//go:build verif
+
+package go_clipper2
+
+// Verification hooks (build tag "verif"): exported aliases of unexported
+// routines so that the external harness in /verif can compare them with the
+// Coq models.  Add-only; nothing here is compiled without the tag.
+
+func VerifTriSign(x int64) int { return triSign(x) }
+
+func VerifMultiplyUInt64(a, b uint64) (lo, hi uint64) {
+	r := multiplyUInt64(a, b)
+	return r.Lo64, r.Hi64
+}
+
+func VerifProductsAreEqual(a, b, c, d int64) bool { return productsAreEqual(a, b, c, d) }
+
+func VerifIsCollinear(p1, sh, p2 Point64) bool { return isCollinear(p1, sh, p2) }
+
+func VerifGetBounds(path Path64) Rect64 { return getBounds(path) }
+
+func VerifRectFields(r Rect64) (left, top, right, bottom int64) {
+	return r.left, r.top, r.right, r.bottom
+}
+
+func VerifMinkowskiInternal(pattern, path Path64, isSum, isClosed bool) Paths64 {
+	return minkowskiInternal(pattern, path, isSum, isClosed)
+}
+
+func VerifSegsIntersect(a, b, c, d Point64, inclusive bool) bool {
+	return segsIntersect(a, b, c, d, inclusive)
+}
+
+func VerifGetSegmentIntersectPt(a, b, c, d Point64) (Point64, bool) {
+	return getSegmentIntersectPt(a, b, c, d)
+}
+
+func VerifGetClosestPtOnSegment(off, s1, s2 Point64) Point64 {
+	return getClosestPtOnSegment(off, s1, s2)
+}
+
+func VerifGetNext(current, high int, flags []bool) int  { return getNext(current, high, flags) }
+func VerifGetPrior(current, high int, flags []bool) int { return getPrior(current, high, flags) }
+
+// option setters for the engine (C02)
+func (c *clipper64) VerifSetOptions(preserveCollinear, reverseSolution bool) {
+	c.preserveCollinear = preserveCollinear
+	c.reverseSolution = reverseSolution
+}
+
+func (c *clipperD) VerifSetOptions(preserveCollinear, reverseSolution bool) {
+	c.preserveCollinear = preserveCollinear
+	c.reverseSolution = reverseSolution
+}
